@@ -679,7 +679,7 @@ fn gen_ts(rng: &mut Rng) -> Vec<Arg> {
         vec![Arg::S("whole".into()), a_i64(rng, TIMESTAMPS_WHOLE)]
     } else if rng.chance(1, 3) {
         // any bit pattern, including NaN, infinities and subnormals
-        vec![Arg::S("frac".into()), Arg::I(rng.next_u64() as i128)]
+        vec![Arg::S("frac".into()), Arg::I(float_bits(rng) as i128)]
     } else {
         vec![
             Arg::S("frac".into()),
@@ -1042,6 +1042,8 @@ fn exec_signature(t: &Trace) -> HResult<Option<Violation>> {
 /// bytes the function was handed, so that the built value shows WHAT was signed / MACed /
 /// encrypted: long tokens keep their size (digest folded into the tail), short ones grow by it.
 fn bind(tok: &[u8], handed: &[u8]) -> Vec<u8> {
+    // (a creator function may well use the library itself while it runs)
+    crate::common::layered_use();
     let mut out = tok.to_vec();
     if crate::util::hash_bytes(tok) % 4 == 0 {
         return out;
